@@ -168,8 +168,13 @@ def rule_R09_1(ctx):
     mixed = sorted(v for v, k in table.items() if k not in ({"suppress"}, {"emit"}))
     r.inst("suppress a following terminator after: %s" % suppress)
     r.inst("emit it after: %d other tokens" % len(emit))
-    if mixed:
-        r.unproven.append("tokens with an undetermined outcome: %s" % mixed)
+    for v in mixed:
+        want = "suppress" if v in {g.terminals.get(t) for t in CONT_TERMINALS} | {"StmtEnd"} else "emit"
+        r.fail("%s | conditional-after=%s" % (f.path, v),
+               "after token %s a statement terminator is sometimes dropped "
+               "and sometimes emitted (outcomes %s); the documented rule is "
+               "unconditional: always %s" % (v, sorted(table[v]), want),
+               where=mir.span_loc(info["raw"]["span"]) if "raw" in info else f.path)
     missing_terms = [t for t in CONT_TERMINALS if t not in g.terminals]
     if missing_terms:
         r.fail("grammar | terminals-missing=%s" % ",".join(missing_terms),
